@@ -299,6 +299,23 @@ theorem C12_glyphbboxpdf_image (fm : Mat) (p0 : Rat × Rat) (ps : List (Rat × R
   rw [h]
   exact imageBox_encloses _ _
 
+/-- CID-keyed CFF fonts: `GlyphBBoxPDF` (matrix `FD.Mul(fm).Mul(Scale 1000)`, whatever the font
+dictionary matrix — translation, shear, flip — and the font matrix are) is the bounding box of the
+outline points mapped through the font dictionary matrix FIRST and the font matrix SECOND, ×1000;
+it contains the image of every outline point under that map; and `GlyphWidthPDF` measures the
+advance with the linear part of the very same composed matrix. -/
+theorem C12_glyphbboxpdf_cid (fd fm : Mat) (p0 : Rat × Rat) (ps : List (Rat × Rat)) (w : Rat) :
+    glyphBBoxPDF (fd.mul fm) (some (p0 :: ps)) = Spec.imageBoxF (Spec.cidImage fd fm) (p0 :: ps) ∧
+    (∀ p ∈ p0 :: ps,
+      (glyphBBoxPDF (fd.mul fm) (some (p0 :: ps))).llx ≤ (Spec.cidImage fd fm p).1 ∧
+      (Spec.cidImage fd fm p).1 ≤ (glyphBBoxPDF (fd.mul fm) (some (p0 :: ps))).urx ∧
+      (glyphBBoxPDF (fd.mul fm) (some (p0 :: ps))).lly ≤ (Spec.cidImage fd fm p).2 ∧
+      (Spec.cidImage fd fm p).2 ≤ (glyphBBoxPDF (fd.mul fm) (some (p0 :: ps))).ury) ∧
+    glyphWidthPDFcff w (fd.mul fm) = Spec.cidWidthPDF fd fm w := by
+  refine ⟨glyphBBoxPDF_cid fd fm p0 ps, ?_, glyphWidthPDF_cid fd fm w⟩
+  rw [glyphBBoxPDF_cid]
+  exact imageBoxF_encloses _ _
+
 /-- The rational model of the writer's handling of CFF widths (`int(w)`, `funit.Int16(w)`,
 `|width − w| ≥ 0.5`) restricted to integral widths is the integral model the `C12_*_def` theorems
 are about. -/
